@@ -264,3 +264,17 @@ def e_tensor(dims, batch, words, payload_len=None):
 
 def e_header(major, minor, dt):
     return e_u32(major) + e_u32(minor) + e_u32(dt)
+
+
+def coqchk(ctx, pid):
+    """thorough tier: re-check the compiled property file (and everything it depends on) with the
+    independent checker coqchk; records the axioms it reports"""
+    rc, out = pv.sh("ulimit -v 12000000; timeout 1500 coqchk -silent -o -Q . PV PV.Props.Properties_%s" % pid, cwd=pv.COQ, timeout=1600)
+    ax = "unknown"
+    for i, line in enumerate(out.splitlines()):
+        if line.strip().startswith("* Axioms:"):
+            ax = line.split(":", 1)[1].strip()
+    ctx.cov["coqchk"] = {"rc": rc, "axioms": ax, "cmd": "coqchk -silent -o -Q . PV PV.Props.Properties_%s" % pid}
+    if rc != 0 or ax != "<none>":
+        ctx.violation("coqchk", {"kind": "proof-obligation", "no_longer_checks": ["coqchk Props/Properties_%s" % pid], "tail": out[-2000:]}, False,
+                      "coqchk rejects the compiled development or reports axioms: rc=%d axioms=%s" % (rc, ax))
